@@ -1,4 +1,4 @@
-import PlumpyModel.Ports.Proof3
+import PlumpyModel.Ports.Proof4
 /-!
 # C11 — only spec-conforming inputs create a process; defaults applied, inputs immutable
 
@@ -26,7 +26,7 @@ def Accepts (vd : Nat → V → Bool) (top : NsA) (ports : PortList) (raw : Item
   ∃ parsed, preProcess ports raw = .ok parsed ∧ ConformsPort vd (.ns top ports) (some (.dict true parsed))
 
 /-- the fully declarative variant: the completion is *any* mapping related to `raw` by the per-key rule
-`DefaultsExact`, not the one the model computes -/
+`DefaultsExact`, not the one the model computes (see `C11_accepts_iff_decl`) -/
 def AcceptsDecl (vd : Nat → V → Bool) (top : NsA) (ports : PortList) (raw : Items) : Prop :=
   ∃ parsed, DefaultsExact ports raw parsed ∧ ConformsPort vd (.ns top ports) (some (.dict true parsed))
 
@@ -74,13 +74,26 @@ theorem C11_constructed_acceptsDecl (vd : Nat → V → Bool) (top : NsA) (ports
   obtain ⟨p, hp, hc⟩ := (C11_accepts_iff vd top ports hwf raw).1 ⟨parsed, h⟩
   exact ⟨p, preProcess_spec ports hwf raw p hp, hc⟩
 
-/-- the converse needs that a completion is unique up to the order of keys and that validators do not depend on that
-order; it is kept as a statement (see the final report) and the correspondence check covers it: the Python reference
-in `harness/ports_gen.py` (`ref_complete`, `ref_conforms_ns`) is `AcceptsDecl` on real dictionaries. -/
-def C11_accepts_iff_full : Prop :=
-  ∀ (vd : Nat → V → Bool) (top : NsA) (ports : PortList), wfPorts ports = true → ∀ raw : Items,
-    (∀ n items items', (∀ k, lookup k items = lookup k items') → vd n (.dict false items) = vd n (.dict false items')) →
-    ((∃ parsed, construct vd top ports raw = .ok parsed) ↔ AcceptsDecl vd top ports raw)
+/-- **C11, first sentence, fully declarative.**  With validators that cannot tell two completions of the same inputs
+apart (`VdStable`: completions differ at most in the order of keys, which Python dictionaries ignore when compared), a
+process is constructed exactly when *some* mapping that completes the inputs by the declared defaults — in the sense of
+the per-key rule `DefaultsExact`, with no reference to `pre_process` — conforms to the spec. -/
+theorem C11_accepts_iff_decl (vd : Nat → V → Bool) (hvd : VdStable vd) (top : NsA) (ports : PortList)
+    (hwf : wfPorts ports = true) (raw : Items) :
+    (∃ parsed, construct vd top ports raw = .ok parsed) ↔ AcceptsDecl vd top ports raw := by
+  constructor
+  · rintro ⟨parsed, h⟩; exact C11_constructed_acceptsDecl vd top ports hwf raw parsed h
+  · rintro ⟨parsed', hd, hc⟩
+    obtain ⟨parsed, hp⟩ := preProcess_total ports hwf raw parsed' hd.1
+    have hd2 := preProcess_spec ports hwf raw parsed hp
+    refine (C11_accepts_iff vd top ports hwf raw).2 ⟨parsed, hp, ?_⟩
+    refine ConformsPort_transfer vd hvd (.ns top ports) (some (.dict false raw)) _ _ ?_ ?_ hc
+    · simp only [DefaultsPort]; exact ⟨parsed', rfl, hd.1, hd.2⟩
+    · simp only [DefaultsPort]; exact ⟨parsed, rfl, hd2.1, hd2.2⟩
+
+/-- `VdStable` is satisfiable, e.g. by validators that only look at atoms (leaf validators) -/
+example : VdStable (fun n v => match v with | .atom _ id => id == n | .dict _ _ => false) := by
+  intro n ports sup i1 i2 _ _; rfl
 
 /-- **C11, rejection.**  Construction fails in exactly two ways: `TypeError` while completing (a declared namespace
 was given, or declares as its default, a non-mapping), or the `ValueError` carrying the validation error of the
@@ -118,16 +131,6 @@ def LeafPath : PortList → List String → Prop
   | ports, [k] => ∀ a sub, lookup k ports ≠ some (.ns a sub)
   | ports, k :: k' :: rest => ∃ a sub, lookup k ports = some (.ns a sub) ∧ LeafPath sub (k' :: rest)
 
-theorem DefaultsPorts_lookup : ∀ (ps : PortList) (vals out : Items) (k : String) (p : Port),
-    DefaultsPorts ps vals out → lookup k ps = some p → DefaultsPort p (lookup k vals) (lookup k out)
-  | [], _, _, _, _, _, h => by cases h
-  | (k', p') :: rest, vals, out, k, p, hd, h => by
-      simp only [DefaultsPorts] at hd
-      simp only [lookup_cons] at h
-      by_cases hk : k = k'
-      · subst hk; simp only [if_true, Option.some.injEq] at h; subst h; exact hd.1
-      · simp only [hk, if_false] at h; exact DefaultsPorts_lookup rest vals out k p hd.2 h
-
 /-- **C11, "every supplied value is preserved", path form**: a value supplied at a `LeafPath` is found unchanged at the
 same path of the completed mapping -/
 theorem C11_supplied_preserved : ∀ (path : List String) (ports : PortList) (raw out : Items) (f f' : Bool) (v : V),
@@ -137,7 +140,7 @@ theorem C11_supplied_preserved : ∀ (path : List String) (ports : PortList) (ra
   | [k], ports, raw, out, f, f', v, hd, hl, hg => by
       simp only [getPath] at hg ⊢
       cases hp : lookup k ports with
-      | none => rw [hd.2 k hp]; exact hg
+      | none => rw [hd.2.1 k hp]; exact hg
       | some p =>
         have := DefaultsPorts_lookup ports raw out k p hd.1 hp
         cases p with
